@@ -160,6 +160,9 @@ fn class_of(dbg: &str) -> String {
         "TooMuchToResample",
         "UnexpectedEof",
     ];
+    if top == "Header" {
+        return if dbg.starts_with("Header(Mismatch") { "Header/Mismatch".into() } else { "Header/Other".into() };
+    }
     for k in KEYS {
         if dbg.contains(k) {
             return format!("{top}/{k}");
@@ -240,6 +243,17 @@ impl Runner {
             }
         }
         format!("other:{fname}")
+    }
+
+    fn snapshot(&self) -> BTreeMap<String, Vec<u8>> {
+        let mut m = BTreeMap::new();
+        if let Ok(rd) = fs::read_dir(&self.dir) {
+            for e in rd.flatten() {
+                let name = e.file_name().to_string_lossy().to_string();
+                m.insert(self.role_of(&name), fs::read(e.path()).unwrap_or_default());
+            }
+        }
+        m
     }
 
     fn files(&self) -> String {
@@ -609,6 +623,21 @@ impl Runner {
     }
 }
 
+/// how the directory changed over one op: `same`, `append` (every file kept its old
+/// content as a prefix, new files may have appeared) or `other`
+fn fs_change(a: &BTreeMap<String, Vec<u8>>, b: &BTreeMap<String, Vec<u8>>) -> &'static str {
+    if a == b {
+        return "same";
+    }
+    for (k, old) in a {
+        match b.get(k) {
+            Some(new) if new.len() >= old.len() && &new[..old.len()] == old.as_slice() => {}
+            _ => return "other",
+        }
+    }
+    "append"
+}
+
 fn peek_payload_size(path: &Path) -> Option<usize> {
     let b = fs::read(path).ok()?;
     let s = String::from_utf8_lossy(&b).to_string();
@@ -628,6 +657,7 @@ fn main() {
         series: None,
         p: 0,
     };
+    let audit = std::env::var("BSRUN_AUDIT").is_ok();
     let stdin = std::io::stdin();
     let stdout = std::io::stdout();
     for line in stdin.lock().lines() {
@@ -636,7 +666,12 @@ fn main() {
         if line.is_empty() || line.starts_with('#') {
             continue;
         }
+        let before = if audit { Some(r.snapshot()) } else { None };
         let out = r.run_op(line);
+        let out = match before {
+            Some(b) => format!("{out} #fs={}", fs_change(&b, &r.snapshot())),
+            None => out,
+        };
         let mut o = stdout.lock();
         writeln!(o, "{out}").unwrap();
         o.flush().unwrap();
